@@ -86,6 +86,8 @@ def gen_history(rng, mode="plain"):
             L = sorted(set(pool))
             q = rng.choice([("take", rng.randint(0, 12)), ("all",), ("cnt",), rrlib.random_query(rng, L), rrlib.random_query(rng, L)])
             ops.append(("q", q))
+            if q[0] not in ("cnt", "all") and rng.random() < 0.35:
+                ops.append(("q", ("cnt",)))            # a partial query, THEN count(): `_len` must not be a partial total
     return ops
 
 
@@ -189,6 +191,11 @@ def correspondence(ctx):
         exc_w = "|".join([ilist(sorted(xds))] + [ilist(m[1]) for m in excs])
         for op in ("rset.iter", "rset.spec"):
             reqs.append("%s %s %s" % (op, inc_w, exc_w)); exp.append(got)
+        # the Python-side reference for the same input (the oracle judges it: impl != model = spec is a failing input)
+        I = set(rds).union(*[m[1] for m in incs]) if incs else set(rds)
+        E = set(xds).union(*[m[1] for m in excs]) if excs else set(xds)
+        ctx._c10_merge = getattr(ctx, "_c10_merge", [])
+        ctx._c10_merge.append((inc_w, exc_w, got, "ok " + ilist(sorted(I - E))))
     got = ctx.driver(reqs)
     for r, e, g in zip(reqs, exp, got):
         if e != g:
@@ -207,6 +214,8 @@ def correspondence(ctx):
             ctx.count("corr_histories_with_stale_resume")
         reqs.append("rset.run %d %s" % (int(cache), ";".join(op_wire(o) for o in ops)))
         exp.append("ok " + ";".join(obs))
+        ctx._c10_hist = getattr(ctx, "_c10_hist", [])
+        ctx._c10_hist.append((cache, ops, obs, want, st))
         hs.append((cache, ops))
     got = ctx.driver(reqs)
     for r, e, g, h in zip(reqs, exp, got, hs):
@@ -243,12 +252,41 @@ def nontrivial_history(ops, obs):
     return False
 
 
+def judge_history(ctx, pending, cache, ops, obs, want, after_stale, origin):
+    """one history against the Python-side reference; failures inside a stale window wait for the model's verdict"""
+    for j, (o, w) in enumerate(zip(obs, want)):
+        if w is not None and o != w:
+            case = {"cache": cache, "history": describe(ops), "failing_op": j, "after_stale_resume": bool(after_stale[j]),
+                    "model_reproduces": False, "origin": origin}
+            what = ("observation %d (%s) of history %s (cache=%s): got %s, set algebra on the members gives %s"
+                    % (j, op_wire(ops[j]), describe(ops)[:300], cache, o[:200], w[:200]))
+            if after_stale[j]:
+                pending.append((what, case, o, w, "rset.run %d %s" % (int(cache), ";".join(op_wire(x) for x in ops)), j))
+            else:
+                ctx.violation(what, case, {"impl": o, "want": w})
+            return False
+    return True
+
+
 def oracle(ctx):
     """Python set algebra on list(member) against every observation made on the real set object"""
     rng = ctx.subrng("oracle")
     n = ctx.budget(2000, 24000)
     pending = []          # failures inside a stale window: classified after asking the model
     nsamples = 0
+    # first: every input the correspondence ran, against the Python-side reference (not the model): an input on which the
+    # implementation differs from the model is a failing input of the property whenever the model's answer is the specified one
+    for inc_w, exc_w, got, ref in getattr(ctx, "_c10_merge", []):
+        ctx.case(("merge", inc_w, exc_w), nontrivial=got.startswith("ok"))
+        ctx.count("oracle_rejudged_merges")
+        if got != ref:
+            ctx.violation("list(set) with inclusion streams %s and exclusion streams %s is %s, set algebra gives %s" % (inc_w[:200], exc_w[:200], got[:200], ref[:200]),
+                          {"cache": None, "history": "merge %s / %s" % (inc_w, exc_w), "failing_op": 0, "after_stale_resume": False,
+                           "model_reproduces": False, "origin": "correspondence"}, {"impl": got, "want": ref})
+    for cache, ops, obs, want, after_stale in getattr(ctx, "_c10_hist", []):
+        ctx.case((cache, describe(ops), "corr"), nontrivial=nontrivial_history(ops, obs))
+        ctx.count("oracle_rejudged_histories")
+        judge_history(ctx, pending, cache, ops, obs, want, after_stale, "correspondence")
     for i in range(n):
         mode = ["plain", "live", "live", "stale-rr", "stale"][i % 5]
         ops = gen_history(rng, mode)
@@ -270,17 +308,7 @@ def oracle(ctx):
                 ctx.count("obs_" + k)
             else:
                 ctx.count("op_" + k)
-        for j, (o, w) in enumerate(zip(obs, want)):
-            if w is not None and o != w:
-                case = {"cache": cache, "history": describe(ops), "failing_op": j, "after_stale_resume": bool(after_stale[j]),
-                        "model_reproduces": False}
-                what = ("observation %d (%s) of history %s (cache=%s): got %s, set algebra on the members gives %s"
-                        % (j, op_wire(ops[j]), describe(ops)[:300], cache, o[:200], w[:200]))
-                if after_stale[j]:
-                    pending.append((what, case, o, w, "rset.run %d %s" % (int(cache), ";".join(op_wire(x) for x in ops)), j))
-                else:
-                    ctx.violation(what, case, {"impl": o, "want": w})
-                break
+        judge_history(ctx, pending, cache, ops, obs, want, after_stale, "oracle")
         if nontriv and nsamples < 3:
             nsamples += 1
             ctx.sample({"cache": cache, "history": describe(ops)[:400], "observations": [o[:80] for o in obs]})
